@@ -97,7 +97,7 @@ class ProgGen:
         atoms = ["int", "str", "float", "bytes", "bool", "None", "object", "Any", "list", "dict", "tuple", "type"] + self.classes[:3] + self.tvars[:2] + self.newtypes[:1] + self.bigs * 3
         if d <= 0 or r < 0.3:
             return self.ch(atoms)
-        k = self.ch(["List", "Dict", "Optional", "Union", "Tuple", "TupleVar", "Callable", "Literal", "Annotated", "Final", "ClassVar",
+        k = self.ch(["List", "Dict", "Optional", "Union", "Tuple", "TupleVar", "Callable", "Literal", "Annotated", "Final", "ClassVar", "CallableP",
                      "Type", "Sequence", "Iterable", "list", "dict", "tuple", "bar", "unpack", "str", "CallableEll", "typing."])
         a = lambda: self.ann_safe(d - 1, False)
         if k in ("Final", "ClassVar") and not top:
@@ -115,6 +115,9 @@ class ProgGen:
             return "%s[%s, ...]" % (self.ch(["Tuple", "tuple"]), a())
         if k == "Callable":
             return "Callable[[%s], %s]" % (", ".join(a() for _ in range(self.r.randint(0, 2))), a())
+        if k == "CallableP":
+            return self.ch(["Callable[[typing.ParamSpec('P'), int], %s]", "Callable[typing.ParamSpec('P'), %s]", "Callable[[int, typing.ParamSpec('P')], %s]",
+                            "Callable[typing.Concatenate[int, typing.ParamSpec('P')], %s]"]) % a()
         if k == "CallableEll":
             return "Callable[..., %s]" % a()
         if k == "Literal":
@@ -141,6 +144,9 @@ class ProgGen:
         a = lambda: self.ann_any(d - 1) if d > 0 else "int"
         return self.ch([
             lambda: "tuple[int, *tuple[str, ...]]",
+            lambda: "Annotated[()]", lambda: "Optional[()]", lambda: "Literal[()]", lambda: "Callable[()]", lambda: "List[()]", lambda: "Final[()]",
+            lambda: "Callable[[typing.ParamSpec('P'), int], int]", lambda: "Callable[[int, typing.ParamSpec('P')], int]", lambda: "Callable[typing.ParamSpec('P'), int]",
+            lambda: "Callable[[int, *Ts], int]", lambda: "Callable[[*tuple[int, ...]], %s]" % a(), lambda: "typing.Concatenate[int, typing.ParamSpec('P')]",
             lambda: "Optional[%s, %s]" % (a(), a()),
             lambda: "list[int][str]",
             lambda: "List[%s, %s]" % (a(), a()),
@@ -239,6 +245,34 @@ class ProgGen:
             return "%s[%s:%s]" % (a, b, self.ch(["", b]))
         return "%s(%s)" % (self.ch(["len", "int", "hash", "abs", "sorted", "bool", "str", "divmod", "isinstance", "max"]), ", ".join([a, b][: self.r.randint(1, 2)]))
 
+    def cmp_operand(self, sc):
+        """literal | variable | len(variable-ish) | attribute | call — the operand shapes the comparison code branches on"""
+        v = self.ch(sc.names) if sc.names and self.p(0.8) else self.name(sc)
+        k = self.ch(["lit", "lit", "var", "var", "len", "len", "len", "attr", "call", "sub", "lenattr", "const"])
+        if k == "lit":
+            return self.ch(KNOWN_LITS)
+        if k == "var":
+            return v
+        if k == "len":
+            return "len(%s)" % self.ch([v, v, "%s.%s" % (v, self.ch(ATTRS)), "%s[0]" % v, "%s[%s]" % (v, self.ch(KNOWN_LITS))])
+        if k == "lenattr":
+            return "len(%s.%s)" % (v, self.ch(ATTRS))
+        if k == "attr":
+            return "%s.%s" % (v, self.ch(ATTRS))
+        if k == "sub":
+            return "%s[%s]" % (v, self.ch(["0", "'a'", v]))
+        if k == "const":
+            return self.ch(self.consts + ["sys.version_info", "sys.platform"])
+        return "%s(%s)" % (self.ch([v, "len", "type", "str", "isinstance"] + list(self.funcs)[:2]), self.ch([v, "", "%s, %s" % (v, self.ch(KNOWN_LITS))]))
+
+    def gcmp(self, sc):
+        """every comparison operator x every operand shape on either side, also chained"""
+        self.f("general_compare")
+        s = "%s %s %s" % (self.cmp_operand(sc), self.ch(CMPOPS), self.cmp_operand(sc))
+        while self.p(0.2):
+            s += " %s %s" % (self.ch(CMPOPS), self.cmp_operand(sc))
+        return "(" + s + ")"
+
     def fstring(self, sc, d):
         self.f("fstring")
         parts = []
@@ -318,7 +352,7 @@ class ProgGen:
     def expr(self, sc, d=2):
         if d <= 0:
             return self.atom(sc)
-        k = self.ch(["atom", "atom", "binop", "binop", "unary", "bool", "cmp", "call", "call", "call", "attr", "attr", "sub", "slice", "known_op", "known_op", "bigcall",
+        k = self.ch(["atom", "atom", "binop", "binop", "unary", "bool", "cmp", "call", "call", "call", "attr", "attr", "sub", "slice", "known_op", "known_op", "bigcall", "gcmp", "gcmp", "gcmp",
                      "list", "tuple", "set", "dict", "lcomp", "scomp", "dcomp", "gen", "lambda", "ifexp", "walrus", "await",
                      "yield", "percent", "format", "fstring", "method"])
         e = lambda: self.expr(sc, d - 1)
@@ -326,6 +360,8 @@ class ProgGen:
             return self.atom(sc)
         if k == "known_op":
             return self.known_op()
+        if k == "gcmp":
+            return self.gcmp(sc)
         if k == "bigcall":
             if self.bigs:
                 self.f("big_union_call")
@@ -761,6 +797,10 @@ class ProgGen:
             elif r < 0.85:
                 self.f("staticmethod")
                 out += self.funcdef(csc, d, method=None, decorators=["staticmethod"], nested=False, name=self.fresh("sm"))
+            elif r < 0.93 and flavour in ("plain", "init", "slots") is False:
+                out.append("%s = %s" % (self.fresh("cv"), self.ch(["0", "'a'", "[]", "None", "(1, 2)"])))
+            elif flavour in ("plain", "init"):
+                out += self.toplevel_annassign(in_class=True)
             else:
                 out.append("%s = %s" % (self.fresh("cv"), self.ch(["0", "'a'", "[]", "None", "(1, 2)"])))
         return out or ["pass"]
@@ -823,6 +863,17 @@ class ProgGen:
         self._kinds[n] = fl
         self.classes.append(n)
         return out
+
+    def toplevel_annassign(self, in_class=False):
+        """`name: <annotation> [= value]` at module / class level (evaluated on import: runtime-safe or quoted)."""
+        self.f("class_annassign" if in_class else "module_annassign")
+        n = self.fresh("cv" if in_class else "MA")
+        a = self.ann(Scope(), evaluated=True)
+        if not in_class:
+            self.consts.append(n)
+        if self.p(0.6):
+            return ["%s: %s = %s" % (n, a, self.ch(["0", "None", "'a'", "[]", "(1, 2)", "len", "{}", "1.5", "[1]", "..."]))]
+        return ["%s: %s" % (n, a)]
 
     def toplevel_exec(self):
         """Executed, well-typed statements."""
@@ -956,8 +1007,10 @@ class ProgGen:
             out += self.toplevel_typing(force="bigunion")
         for _ in range(n_items):
             r = self.r.random()
-            if r < 0.12:
+            if r < 0.10:
                 out += self.toplevel_typing()
+            elif r < 0.2:
+                out += self.toplevel_annassign()
             elif r < 0.3:
                 out += self.toplevel_exec()
             elif r < 0.55:
